@@ -64,7 +64,7 @@ class MalGen(storegen.HistGen):
 class C04(Prop):
     ID = "C04"
     MODULE = "AwProofs.Props.C04"
-    THEOREMS = []
+    THEOREMS = ["AwProofs.C04.foreign_id_noop_memory", "AwProofs.C04.foreign_id_noop_peewee", "AwProofs.C04.foreign_id_noop_sqlite", "AwProofs.C04.frame_memory", "AwProofs.C04.frame_peewee", "AwProofs.C04.frame_run_memory", "AwProofs.C04.frame_run_peewee", "AwProofs.C04.frame_run_sqlite", "AwProofs.C04.frame_spec", "AwProofs.C04.frame_sqlite", "AwProofs.C04.inv_step_memory", "AwProofs.C04.inv_step_peewee", "AwProofs.C04.inv_step_sqlite", "AwProofs.C04.reachable_inv_memory", "AwProofs.C04.reachable_inv_peewee", "AwProofs.C04.reachable_inv_sqlite", "AwProofs.C04.rejected_unchanged_memory", "AwProofs.C04.rejected_unchanged_peewee", "AwProofs.C04.rejected_unchanged_sqlite"]
     MODEL_NEEDS_IMPL = True
     WORKERS = 10
     LEVEL_TEXT = "Lean 4 frame theorems: for every operation and every argument, the view of every other bucket is unchanged"
